@@ -94,14 +94,17 @@ Definition row_exists (s : sqlstore) (uid : str) : bool :=
 
 (** [_write(table_name=results, ...)]: UPDATE when the id is a member and the
     mode is not APPEND, INSERT otherwise (IntegrityError on a duplicate key) *)
-Definition sq_write_row (s : sqlstore) (uid data : str) (completed : bool) : sqlstore * res :=
+Definition sq_write_row (v : variant) (s : sqlstore) (uid data : str) (completed : bool) : sqlstore * res :=
   let s0 := sq_init_log s in
   let lid := match q_logid s0 with Some z => z | None => 0 end in
   let (s1, present) := sq_contains s0 uid in
   if present && negb (mode_eqb (q_mode s1) MA) then
-    (* UPDATE results SET data=?, log_id=?, md5=? WHERE record_id=?   (is_completed untouched) *)
+    (* UPDATE results SET data=?, log_id=?, md5=? WHERE record_id=?   (pinned: is_completed untouched;
+       C13-6: is_completed=? as well) *)
     (qwith_rows s1 (map (fun r => if str_eqb (r_id r) uid
-                                   then mkRow (r_id r) data data (r_completed r) lid else r) (q_rows s1)),
+                                   then mkRow (r_id r) data data
+                                              (if v_sqlupd v then completed else r_completed r) lid
+                                   else r) (q_rows s1)),
      ROk (Some uid))
   else if row_exists s1 uid then (s1, RExc E_Other)                 (* sqlite3.IntegrityError *)
   else (qwith_rows s1 (q_rows s1 ++ [mkRow uid data data completed lid]), ROk (Some uid)).
@@ -122,7 +125,7 @@ Definition sq_drop (s : sqlstore) (uid : str) : sqlstore * option Z :=
 Definition strip_table (table uid : str) : str :=
   if startswith uid table then path_name uid else uid.
 
-Definition sq_write (s : sqlstore) (uid0 data : str) : sqlstore * res :=
+Definition sq_write (v : variant) (s : sqlstore) (uid0 data : str) : sqlstore * res :=
   let uid := strip_table s_results uid0 in
   let (s1, e) := sq_check_writable s uid in
   match e with
@@ -132,7 +135,7 @@ Definition sq_write (s : sqlstore) (uid0 data : str) : sqlstore * res :=
       match e2 with
       | Some c => (s2, RExc c)
       | None =>
-          let (s3, r) := sq_write_row s2 uid data true in
+          let (s3, r) := sq_write_row v s2 uid data true in
           match r with
           | ROk (Some id) =>
               if mem_str id (q_completed s3) then (s3, r)
@@ -142,15 +145,20 @@ Definition sq_write (s : sqlstore) (uid0 data : str) : sqlstore * res :=
       end
   end.
 
-Definition sq_write_nc (s : sqlstore) (uid0 data : str) : sqlstore * res :=
+Definition sq_write_nc (v : variant) (s : sqlstore) (uid0 data : str) : sqlstore * res :=
   let uid := strip_table s_results uid0 in
   let (s1, e) := sq_check_writable s uid in
   match e with
   | Some c => (s1, RExc c)
   | None =>
-      let (s2, r) := sq_write_row s1 uid data false in
+      let (s2, r) := sq_write_row v s1 uid data false in
       match r with
-      | ROk (Some id) => (qwith_ncache s2 (q_ncache s2 ++ [id]), r)
+      | ROk (Some id) =>
+          if v_sqlupd v then
+            let s3 := if mem_str id (q_completed s2)
+                      then qwith_completed s2 (remove_first id (q_completed s2)) else s2 in
+            (if mem_str id (q_ncache s3) then s3 else qwith_ncache s3 (q_ncache s3 ++ [id]), r)
+          else (qwith_ncache s2 (q_ncache s2 ++ [id]), r)
       | _ => (s2, r)
       end
   end.
@@ -174,10 +182,10 @@ Definition sq_write_log (s : sqlstore) (uid0 data : str) : sqlstore * res :=
       (qwith_logs s2 (set_nth (Z.to_nat (lid - 1)) (Some uid, Some data) (q_logs s2)), ROk None)
   end.
 
-Definition sq_step (s : sqlstore) (o : op) : sqlstore * res :=
+Definition sq_step (v : variant) (s : sqlstore) (o : op) : sqlstore * res :=
   match o with
-  | OWrite id data => sq_write s id data
-  | OWriteNC id data => sq_write_nc s id data
+  | OWrite id data => sq_write v s id data
+  | OWriteNC id data => sq_write_nc v s id data
   | OWriteLog id data => sq_write_log s id data
   | ODrop id => let (s1, e) := sq_drop s id in (s1, match e with Some c => RExc c | None => ROk None end)
   | ODropAll => let (s1, e) := sq_drop s [] in (s1, match e with Some c => RExc c | None => ROk None end)
